@@ -7,8 +7,12 @@
 From Verif Require Import EntryBase DispatchLts.
 Open Scope Z_scope.
 
-Definition dsp_track (i : list bytes) : bool := Nat.eqb (get_nat i 1) 1.
+(* track: 0 off | 1 EnableStateTracking() before Connect() | 2 after Connect(), before the traffic *)
+Definition dsp_track (i : list bytes) : bool := Nat.leb 1 (get_nat i 1).
+(* endmode: 0 up | 1 EOF | 2 Close() | 3 Close() and Connect() during a slow foreground handler of
+   line close_at - 1; lines close_at.. arrive on connection 2 *)
 Definition dsp_endmode (i : list bytes) : nat := get_nat i 3.
+Definition dsp_close_at (i : list bytes) : nat := get_nat i 4.
 Definition dsp_nverbs (i : list bytes) : nat := get_nat i 12.
 Definition dsp_nlines (i : list bytes) : nat := get_nat i (13 + 2 * dsp_nverbs i).
 
